@@ -407,20 +407,18 @@ def rule_when(ctx: Ctx):
     rep.check(rec, "C08.when", tk.loc(), "names without provider are recorded", tk.key, "names_not_found_handler never called")
     n_y = 0
     for p in ctx.paths(build, inline=None, exc_edges="none"):
-        ys = [e for e in p.of("yield") if not e.x.get("from")]
+        evs = p.events
+        parsed = next((e for e in p.calls() if show(e.term.func) == "parse_boolean_expr"), None)
+        if parsed is None:
+            continue  # not the boolean-expression branch
+        ys = [e for e in p.of("yield") if not e.x.get("from") and e.idx > parsed.idx]
         if not ys:
             continue
         n_y += 1
-        evs = p.events
-        part = next((e for e in p.calls() if show(e.term.func) in ("partial", "functools.partial") and
-                     any(kw.arg == "names_not_found_handler" for kw in e.term.keywords)), None)
-        holder = None
-        if part is not None:
-            hv = next(kw.value for kw in part.term.keywords if kw.arg == "names_not_found_handler")
-            holder = show(hv.value) if isinstance(hv, ast.Attribute) and hv.attr == "add" else None
-        parsed = next((e for e in p.calls() if show(e.term.func) == "parse_boolean_expr"), None)
+        # the set that collects the names no provider has: a fresh set() created before parsing
+        holders = [f"$c{e.idx}" for e in p.calls() if show(e.term.func) == "set" and not e.term.args and e.idx < parsed.idx]
         facts = {show(b.term): b.x["taken"] for b in p.of("branch")}
-        ok = holder is not None and facts.get(holder) is False and parsed is not None and facts.get(f"$c{parsed.idx}") is True
+        ok = any(facts.get(h) is False for h in holders) and facts.get(f"$c{parsed.idx}") is True
         rep.check(ok, "C08.when", ys[0].loc(), "an expression is registered only when it was built and every name in it was found", build.key,
                   norm_stmt(ys[0].node), facts=[f"{xshow(ast.parse(k, mode='eval').body, evs) if not k.startswith('$') else k}=={v}" for k, v in facts.items()][-3:])
     rep.floor("C08.when", "yielding paths of Listeners.build for expressions", n_y, 1)
